@@ -41,8 +41,12 @@ REPL_NAMES = ["null", "true", "-1", "0", "2^31", "real", "string", "name", "[]",
               "missing-ref", "pagetree-ref", "referrer-ref (cycle of length >= 2)"]
 # (indices are part of pinned replay files: only ever append)
 TRAILER_REPL = list(REPL) + ["SELFPOS", 7]
-REPL += [10 ** 30, -10 ** 30, W.Real("1" + "0" * 60 + ".0"), b"", [W.R(9999)], [None]]
-REPL_NAMES += ["10^30", "-10^30", "real 1e60", "empty string", "[missing-ref]", "[null]"]
+REPL += [10 ** 30, -10 ** 30, W.Real("1" + "0" * 60 + ".0"), b"", [W.R(9999)], [None], "CHAIN1", "CHAIN2"]
+REPL_NAMES += ["10^30", "-10^30", "real 1e60", "empty string", "[missing-ref]", "[null]",
+               "ref to a new object whose value is a reference to itself",
+               "ref to a new object leading into a cycle of two further objects"]
+# objects added to the file for the CHAIN replacements: a reference chain that *enters* a cycle
+CHAIN_OBJS = {"CHAIN1": {9000: W.R(9000)}, "CHAIN2": {9000: W.R(9001), 9001: W.R(9002), 9002: W.R(9001)}}
 TRAILER_REPL += REPL[16:]
 TRAILER_REPL_NAMES = REPL_NAMES[:16] + ["own startxref offset", "7"] + REPL_NAMES[16:]
 LZW_CODE_VALUES = [0, 255, 256, 257, 258, 259, 300, 511, 512, 4095]
@@ -221,6 +225,15 @@ def fault_space(s):
                 for pos in range(24):
                     for val in LZW_CODE_VALUES:
                         out.append({"t": "lzwcode", "obj": n, "pos": pos, "val": val})
+    if s["form"] == "stream":
+        # the object streams the writer packs the non-stream objects into: payload cut at every point of the integer
+        # header (and some beyond), /N /First replaced
+        for grp in (0, 1):
+            for cut in list(range(0, 40)) + [60, 100, 200]:
+                out.append({"t": "objstm", "group": grp, "cut": cut})
+            for key in ("N", "First"):
+                for val in (0, 1, 1000, -1):
+                    out.append({"t": "objstm", "group": grp, "key": key, "val": val})
     for key in TRAILER_KEYS:
         for ri in range(len(TRAILER_REPL)):
             out.append({"t": "trailer", "key": key, "r": ri})
@@ -251,10 +264,15 @@ def apply_fault(s, f):
             if m is None:
                 return None
             new = W.R(m)
+        extra = {}
+        if isinstance(new, str) and new in CHAIN_OBJS:
+            extra = CHAIN_OBJS[new]
+            new = W.R(9000)
         old = _get(objs[f["obj"]], path)
         if W.same(W.expected(old) if not W.is_stream(old) else ("x",), W.expected(new)):
             return None
         o2 = dict(objs)
+        o2.update(extra)
         o2[f["obj"]] = _set(objs[f["obj"]], path, copy.deepcopy(new))
         return SD.write(s, o2)
     if f["t"] == "whole":
@@ -267,6 +285,9 @@ def apply_fault(s, f):
                 return None
             new = W.R(m)
         o2 = dict(objs)
+        if isinstance(new, str) and new in CHAIN_OBJS:
+            o2.update(CHAIN_OBJS[new])
+            new = W.R(9000)
         o2[f["obj"]] = copy.deepcopy(new)
         return SD.write(s, o2)
     if f["t"] == "remove":
@@ -298,13 +319,25 @@ def apply_fault(s, f):
             d[b"Length"] = len(new)
         o2[f["obj"]] = ("S", d, new)
         return SD.write(s, o2)
+    if f["t"] == "objstm":
+        dmg = {"group": f["group"]}
+        if "cut" in f:
+            dmg["cut"] = f["cut"]
+        else:
+            dmg["dict"] = {f["key"].encode(): f["val"]}
+        return SD.write(dict(s, objstm_damage=dmg))
     if f["t"] == "trailer":
         new = TRAILER_REPL[f["r"]]
         if new == "SELF":
             new = W.R(1)
         elif new == "REFERRER":
             new = W.R(2)
-        return SD.write(s, None, {f["key"].encode(): copy.deepcopy(new)})
+        o2 = None
+        if isinstance(new, str) and new in CHAIN_OBJS:
+            o2 = dict(objs)
+            o2.update(CHAIN_OBJS[new])
+            new = W.R(9000)
+        return SD.write(s, o2, {f["key"].encode(): copy.deepcopy(new)})
     if f["t"] == "inlinekey":
         st = objs[f["obj"]]
         i = st[2].index(b" ID ")
@@ -475,8 +508,8 @@ def run_case(case):
         else:
             viol.append((bucket(exc), "%s raised %s: %s" % (name, type(exc).__name__, str(exc)[:200])))
     f = case["fault"]
-    if f["t"] in ("truncate", "flipbyte", "raw", "trailer"):
-        nt = bool(fetched) or f["t"] == "trailer"
+    if f["t"] in ("truncate", "flipbyte", "raw", "trailer", "objstm"):
+        nt = bool(fetched) or f["t"] in ("trailer", "objstm")
     else:
         nt = f["obj"] in fetched
     fp = None
@@ -499,6 +532,8 @@ def describe(case):
         return "seed %s object %d key %s removed" % (case["seed"], f["obj"], _fmt_path(f["path"]))
     if f["t"] == "payload":
         return "seed %s stream %d payload %s %s" % (case["seed"], f["obj"], f["how"], f.get("i", ""))
+    if f["t"] == "objstm":
+        return "seed %s object stream #%d %s" % (case["seed"], f["group"], ("payload cut to %d bytes" % f["cut"]) if "cut" in f else "/%s <- %d" % (f["key"], f["val"]))
     if f["t"] == "trailer":
         return "seed %s trailer /%s <- %s" % (case["seed"], f["key"], TRAILER_REPL_NAMES[f["r"]])
     if f["t"] == "inlinekey":
@@ -622,7 +657,8 @@ def run_shard(spec, ctx):
                 return True
             if f["t"] == "byteset" and c["seed"] == "cid":
                 return True  # the TrueType program: small, and every table of it is offsets / counts / keys
-            return f["t"] in ("payload", "lzwcode", "whole", "cmaprange", "trailer", "inlinekey") or (f["t"] == "replace" and REPL[f["r"]] in ("SELF", "REFERRER") or
+            return f["t"] in ("payload", "lzwcode", "whole", "cmaprange", "trailer", "inlinekey", "objstm") or (
+                f["t"] == "replace" and REPL[f["r"]] in ("SELF", "REFERRER", "CHAIN1", "CHAIN2") or
                                                           (f["t"] == "replace" and f["r"] == 14))
         fixed = [i for i, c in enumerate(cases) if always(c)]
         rest = [i for i, c in enumerate(cases) if not always(c)]
